@@ -8,7 +8,7 @@ def regen(ctx):
         return []
     f = "app/daemon/daemon.go:OrderedDaemon."
     return checklib.regen_skeletons(ctx, [f + m for m in (
-        "BackgroundWorker", "runBackgroundWorker", "Start", "Run", "waitGroupsForAllShutdownOrders", "shutdown",
+        "BackgroundWorker", "runBackgroundWorker", "Start", "Run", "shutdown",
         "stopWorkers", "getWorkersAndShutdownOrder", "cleanupWorker", "clear", "Shutdown", "ShutdownAndWait")],
         extra_methods=["IsStopped", "IsRunning", "ctxCancel", "stoppedCtxCancel", "Slice", "backgroundWorker"])
 
@@ -21,8 +21,8 @@ SPEC = {
     "harness": "c20",
     "race": False,
     "theorems": ["C20_order", "C20_equal_order_together", "C20_wait_returns_after_all",
-                 "C20_no_add_after_shutdown", "C20_running_name_refused", "C20_run_wait_partial",
-                 "C20_run_wait_witness", "C20_statement_fails_witness", "C20_old_bw_window_witness",
+                 "C20_no_add_after_shutdown", "C20_running_name_refused", "C20_run_returns_after_all",
+                 "C20_statement", "C20_old_run_wait_witness", "C20_old_bw_window_witness",
                  "C20_skeleton_BackgroundWorker", "C20_skeleton_runBackgroundWorker", "C20_skeleton_Start", "C20_skeleton_Run",
                  "C20_skeleton_shutdown", "C20_skeleton_stopWorkers", "C20_skeleton_cleanupWorker"],
     "trusted_base": [
@@ -34,7 +34,7 @@ SPEC = {
         "Go toolchain, Go runtime scheduler (concurrent cases are sampled, not exhaustive), compiled Lean driver",
     ],
     "modelled": [
-        "OrderedDaemon: BackgroundWorker (unlocked stopped check + critical section), Start, Run (WaitGroup snapshot + waits), "
+        "OrderedDaemon: BackgroundWorker (unlocked stopped check + critical section), Start, Run (waits under the lock for runningWorkers == 0), "
         "Shutdown/ShutdownAndWait (stopOnce, shutdown, stopWorkers, clear), runBackgroundWorker goroutine, cleanupWorker",
         "sort.Slice is modelled as 'any arrangement sorted by descending order'",
         "workers map + shutdownOrderWorker slice are one list of instances (both are always updated in the same critical section)",
@@ -47,11 +47,12 @@ SPEC = {
                 "orders, re-registration): C20_order (a running worker is cancelled only after every started worker of higher order "
                 "returned), C20_equal_order_together (no WaitGroup wait between cancellations of one order), "
                 "C20_wait_returns_after_all (every stopOnce.Do return happens after every started worker returned), "
-                "C20_no_add_after_shutdown, C20_running_name_refused. Run's clause is violated by the code: full statement "
-                "C20_statement, C20_run_wait_partial (holds when no worker is accepted after Run copied the WaitGroups), "
-                "C20_run_wait_witness (schedule; replayed on the real code by the harness corpus, recorded as known finding). "
-                "Two windows of the unrepaired code (BackgroundWorker/Start racing Shutdown) were exhibited through the verif hook / "
-                "stress and fixed (C20_old_bw_window_witness keeps the Lean schedule). Tie: ~1k (quick) / ~20k (thorough) scripted and "
+                "C20_no_add_after_shutdown, C20_running_name_refused, C20_run_returns_after_all (every Run return happens after "
+                "every started worker returned, incl. workers added or re-registered while running), and C20_statement (all six "
+                "clauses). Three defects of the unrepaired code were exhibited on the real code and fixed: BackgroundWorker / Start "
+                "racing Shutdown (verif hook / stress; C20_old_bw_window_witness) and Run copying the per-order WaitGroups once "
+                "(returned before later workers, rare sync.WaitGroup misuse panic; C20_old_run_wait_witness over the old model "
+                "variant). Tie: ~6k (quick) / ~120k (thorough) scripted and "
                 "random life-cycle histories on the real daemon: sequential ones are compared answer by answer with the Lean model, "
                 "every event log is judged by the same Lean trace predicates the theorems are about and by an independent Go oracle.",
         "note": "Trusted: Lean kernel; the hand-written model (tie = differential + trace-predicate validation, sampled schedules); "
